@@ -1048,6 +1048,7 @@ func (m *Nitro) LoadFromDisk(dir string, concurr int, callb ItemCallback) (*Snap
 	var bs []byte
 	var err error
 	var checksums []uint32
+	var haveChecksums bool
 
 	manifestdir := dir
 	var version int
@@ -1078,6 +1079,7 @@ func (m *Nitro) LoadFromDisk(dir string, concurr int, callb ItemCallback) (*Snap
 		if len(checksums) != len(files) {
 			return nil, ErrCorruptSnapshot
 		}
+		haveChecksums = true
 	} else {
 		checksums = make([]uint32, len(files))
 	}
@@ -1146,7 +1148,7 @@ func (m *Nitro) LoadFromDisk(dir string, concurr int, callb ItemCallback) (*Snap
 	close(wchan)
 	wg.Wait()
 	for i, rdr := range readers {
-		if checksums[i] != 0 && checksums[i] != rdr.Checksum() {
+		if (haveChecksums || checksums[i] != 0) && checksums[i] != rdr.Checksum() {
 			return nil, ErrCorruptSnapshot
 		}
 	}
@@ -1177,6 +1179,7 @@ func (m *Nitro) LoadFromDisk(dir string, concurr int, callb ItemCallback) (*Snap
 		errors := make([]error, len(files))
 		writers := make([]*Writer, concurr)
 		deltaChecksums := make([]uint32, len(files))
+		haveDeltaChecksums := false
 		if bs, err := ioutil.ReadFile(filepath.Join(deltadir, "checksums.json")); err == nil {
 			if err = json.Unmarshal(bs, &deltaChecksums); err != nil {
 				return nil, err
@@ -1184,6 +1187,7 @@ func (m *Nitro) LoadFromDisk(dir string, concurr int, callb ItemCallback) (*Snap
 			if len(deltaChecksums) != len(files) {
 				return nil, ErrCorruptSnapshot
 			}
+			haveDeltaChecksums = true
 		}
 
 		defer func() {
@@ -1254,7 +1258,7 @@ func (m *Nitro) LoadFromDisk(dir string, concurr int, callb ItemCallback) (*Snap
 		wg.Wait()
 
 		for i, rdr := range readers {
-			if deltaChecksums[i] != 0 && deltaChecksums[i] != rdr.Checksum() {
+			if (haveDeltaChecksums || deltaChecksums[i] != 0) && deltaChecksums[i] != rdr.Checksum() {
 				return nil, ErrCorruptSnapshot
 			}
 		}
